@@ -8,6 +8,8 @@ NOT_YET = {}
 _TB = ("Trusted: Lean kernel + propext/Classical.choice/Quot.sound; hand-written models (checked against the code by the "
        "correspondence engine on every run, not assumed); generators and canonicalisers. ")
 ENGINES = [
+    {"name": "iso", "path": "go/cmd/corr/eng.go", "serves_properties": ["C05"],
+     "kind_free_text": "history: predecessor transaction(s) then probe on one WAF (pooled object reuse); probe outcome vs Lean model on a fresh state"},
     {"name": "engrep", "path": "go/cmd/corr/eng.go", "serves_properties": ["C04", "C12"],
      "kind_free_text": "repetition: each generated case 13x on fresh WAFs; all outcomes equal each other and the Lean model"},
     {"name": "eng", "path": "go/cmd/corr/eng.go", "serves_properties": ["C01", "C02", "C04", "C08", "C09", "C12", "C17"],
@@ -38,6 +40,13 @@ CLAIMED = {
              "commutes is equal. Tied to /repo by `engrep` (13 repetitions per case on fresh WAFs must agree with each other "
              "and with the model) and `eng`.",
         note=_ENG_NOTE, ref="6/C04", engine="engrep,eng"),
+    "C05": dict(
+        text="Lean 4 theorems: newTransaction applied to any closed transaction state equals the brand-new state "
+             "(C05_reinit, every modelled field covered), hence for every predecessor, request and API call sequence the "
+             "probe's whole trace equals the trace on a fresh transaction (C05_probe); a witness shows the collection reset "
+             "in Close is necessary. Tied to /repo by `iso`: predecessor + probe on one WAF, probe outcome vs the model on a "
+             "fresh state.",
+        note=_ENG_NOTE, ref="6/C05", engine="iso"),
     "C09": dict(
         text="Lean 4 theorems: the state after a link is the left fold of 'update MATCHED_*, then run every non-disruptive "
              "action once' over exactly the link's matches, in order (so once per match, macros expanded at that moment); "
